@@ -1,5 +1,5 @@
 (* Extraction of Model/Site.v (+ Gen/Listings.v) : ExtrOcamlBasic only; N/Z/positive/nat stay inductives. *)
 From Coq Require Import ExtrOcamlBasic.
-From PydoctorVerif Require Import Base.Sexp Model.SiteTable Model.Site Gen.Listings Model.SiteRun.
+From PydoctorVerif Require Import Base.Sexp Model.SiteTable Model.Site Gen.Listings Model.SiteIR Gen.SiteCode Model.SiteRun.
 Extraction Language OCaml.
 Extraction "model.ml" run.
